@@ -15,6 +15,13 @@
 (* compared with it command by command (clauses marked "= input").                                              *)
 (* The root-of-trust set is given by its size, the key used and the VALUE CLASS of the key at every position      *)
 (* (inp.rk, inp.ik: Sb31Format!KeyClasses - keys with leading zero bytes in a coordinate are part of the domain). *)
+(* inp.given (Sb31Format!Givens) records what the caller SUPPLIED next to what it requested: part-common key and  *)
+(* access rights although the container is requested plain, ISK certificate material although no ISK is           *)
+(* requested.  NO action of the automaton reads inp.given: the loader of a plain container holds no key            *)
+(* (VerifyBlock0 goes straight to the chain, Block takes the 256 bytes of every block as they are, Section / Cmd   *)
+(* must find the section header and the commands in them), the loader of a container without ISK expects the       *)
+(* certificate block to end with the root key record.  Supplied-but-not-requested material is a dimension of the   *)
+(* CASE SPACE (Sb31Gen, Sb31CfgGen, Sb31RomMC), not of the acceptance condition.                                   *)
 (* Words that may have bit 31 set are pairs of 16-bit limbs <<hi, lo>> (TLC integers are 32 bit).                *)
 EXTENDS Sb31Format
 
@@ -148,7 +155,7 @@ Block(e) ==
   /\ e.num = blk                                                       \* numbered from 1
   /\ e.hashOk                                                          \* H(whole block) = hash carried by the predecessor
   /\ e.last = (blk = h.blockCount) /\ (e.last => e.nextZero)           \* the chain ends with the zero hash
-  /\ e.enc = inp.enc
+  /\ e.enc = inp.enc                                                   \* the REQUEST decides; a plain block is read without any key
   /\ e.cipherAt = e.at + 4 + h.hashLen /\ e.cipherLen = CHUNK
   /\ (inp.enc => KdfOk(e.kdf, <<0, 0, 0, 0>> \o LenW(blk), 16) /\ e.ivZero)    \* constant = block number
   /\ covTo' = e.at + h.blockSize /\ blk' = blk + 1
